@@ -26,12 +26,13 @@ CHECKS = {
     'C04': dict(
         engine='Lifecycle',
         technique='TLA+ spec Lifecycle.tla (parent procedures wait/terminate/is_alive/close of thread, process and remote workers step by step; child OS states running/frozen/stopped; control threads; server-side control thread; frontend thread) model-checked with TLC: liveness "every call returns" under weak fairness, safety Truthful/DeadFast/Force/Stable, pre-fix variants rejected; TLC enumerates all outcomes of planned histories; each history replayed on real workers with real SIGSTOP / GIL-holding C call / exception-swallowing targets; TLC judges every real execution (LifecycleJudge) against /proc ground truth; model outcomes vs real outcomes = conformance',
-        text='Exhaustive TLC model checking (all call histories up to 3 (quick: liveness to 2) / 4 (thorough) over 38 scenarios (incl. a child that has reported its result while its process lingers): kind x persistent x target behaviour x start state, with SIGSTOP at any point), bound to the code by replaying planned histories on real thread/process/remote workers and judging each real execution with the same TLA+ operators.',
+        text='Exhaustive TLC model checking (all call histories up to 2 (quick; 3 for the process kind) / 4 (thorough) over 38 scenarios (incl. a child that has reported its result while its process lingers): kind x persistent x target behaviour x start state, with SIGSTOP at any point), bound to the code by replaying planned histories on real thread/process/remote workers and judging each real execution with the same TLA+ operators.',
         note='Trusted: TLC; the timing abstraction (a small timeout expires only when no other party can step; timeout 0 may expire at once); /proc as ground truth for child liveness; durations classed against generous bounds (3*timeout+2 s; "at once" = under 0.3 s, re-measured before alarming). Server process itself is assumed responsive. Replay covers a seeded sample of histories of length 3-4 (all of length <= 2 in the thorough tier).',
         design_ref='6/C04'),
 }
 
 T_SMALL = 0.4        # the "small" timeout of the property's quantifier
+T_LONG = 11.0        # a long timeout: longer than any deadline hidden in the machinery (e.g. a 10 s socket timeout)
 FAST = 0.3           # "at once": below the small timeout
 GRACE = 1.0          # signal-delivery grace for os_grace
 SETTLE = 0.25        # paced replays: let a dying child die before the next call
@@ -39,11 +40,11 @@ WNAME = 'lifeW'
 OPS_ALL = ['wait0', 'waitT', 'term0', 'termT', 'term0F', 'termTF', 'alive', 'close']
 OPS_THREAD = ['wait0', 'waitT', 'term0', 'termT', 'alive', 'close']
 OPS_NOTERM = ['wait0', 'waitT', 'alive', 'close']
-WT_OPS = ('wait0', 'waitT', 'term0', 'termT', 'term0F', 'termTF')
+WT_OPS = ('wait0', 'waitT', 'waitL', 'term0', 'termT', 'term0F', 'termTF')
 
 
 def _op_timeout(op):
-    return 0.0 if op in ('wait0', 'term0', 'term0F') else T_SMALL
+    return 0.0 if op in ('wait0', 'term0', 'term0F') else T_LONG if op == 'waitL' else T_SMALL
 
 
 # ======================================================================================
@@ -176,7 +177,7 @@ def host_main(case_path, out_path):
 
         def api(op):
             t = _op_timeout(op)
-            return {'wait0': lambda: w.wait(0), 'waitT': lambda: w.wait(t),
+            return {'wait0': lambda: w.wait(0), 'waitT': lambda: w.wait(t), 'waitL': lambda: w.wait(t),
                     'term0': lambda: w.terminate(timeout=0, force=False), 'termT': lambda: w.terminate(timeout=t, force=False),
                     'term0F': lambda: w.terminate(timeout=0, force=True), 'termTF': lambda: w.terminate(timeout=t, force=True),
                     'alive': lambda: w.is_alive(), 'close': lambda: w.close()}[op]
@@ -368,6 +369,12 @@ def gen_cases(tier, rng):
         for beh in ('swallow', 'sleep'):
             add(S(kind, beh), ['termT', 'alive', 'wait0', 'termT'])
             add(S(kind, beh), ['term0', 'wait0', 'alive', 'waitT'])
+    # a wait that lasts longer than any deadline hidden in the machinery, on a busy remote worker
+    add(S('remote', 'sleep'), ['waitL', 'termTF', 'alive'])
+    if tier == 'thorough':
+        add(S('remote', 'swallow'), ['waitL', 'termT', 'termTF', 'wait0'])
+        add(S('remote', 'swallow', 'T'), ['waitL', 'alive', 'termTF'])
+        add(S('process', 'sleep'), ['waitL', 'termTF', 'alive'])
     # the remote child is idle, the frontend thread is busy with a slow result: the worker is not dead when the child is
     add(S('remote', 'slowres', 'T'), ['termT', 'termT', 'alive', 'wait0'])
     add(S('remote', 'slowres', 'T'), ['termTF', 'termTF', 'wait0', 'alive'])
@@ -496,7 +503,7 @@ def run(prop, tier, replay=None):
     jobs = {}
     if tier == 'quick':
         jobs['mc_live'] = dict(cfg=_mc_cfg(MaxOps='2'), workers=8, label='exhaustive, histories <= 2, liveness + safety, all fixes applied')
-        jobs['mc_safe'] = dict(cfg=_mc_cfg(MaxOps='3').replace('PROPERTY Live_Returns', ''), workers=6, label='exhaustive, histories <= 3, safety, all fixes applied')
+        jobs['mc_safe'] = dict(cfg=_mc_cfg(MaxOps='3', Cases='FreeProcess').replace('PROPERTY Live_Returns', ''), workers=6, label='exhaustive, histories <= 3, safety, process kind, all fixes applied')
     else:
         jobs['mc_live'] = dict(cfg=_mc_cfg(MaxOps='4'), workers=16, label='exhaustive, histories <= 4, liveness + safety, all fixes applied')
     for nm, fx, sub in (('pre_all', 'FixNone', 'FreeProcess'), ('pre_poll', 'FixNoPoll', 'FreeProcess'), ('pre_kill', 'FixNoKill', 'FreeRemote'),
@@ -506,6 +513,10 @@ def run(prop, tier, replay=None):
                                            label='what-if: RemoteWorker.terminate caches _dead when it answers False (must be rejected)')
     jobs['whatif_rebuildraises'] = dict(cfg=_mc_cfg(MaxOps='2', RebuildRaises='TRUE', Cases='FreeProcess').replace('PROPERTY Live_Returns', ''), workers=2, expect_error=True,
                                         label='what-if: ProcessWorker.wait lets the error of rebuilding the final message escape (must be rejected)')
+    jobs['whatif_stalealive'] = dict(cfg=_mc_cfg(MaxOps='2', StaleAliveAfterKill='TRUE', Cases='FreeProcess').replace('PROPERTY Live_Returns', ''), workers=2, expect_error=True,
+                                     label='what-if: ProcessWorker.terminate does not re-read liveness after kill()+join() (must be rejected)')
+    jobs['whatif_hiddendeadline'] = dict(cfg=_mc_cfg(MaxOps='2', HiddenDeadline='TRUE', Cases='FreeRemote').replace('PROPERTY Live_Returns', ''), workers=2, expect_error=True,
+                                         label='what-if: the control socket keeps a 10 s timeout from the handshake (must be rejected)')
     jobs['whatif_remdeadmeansdead'] = dict(cfg=_mc_cfg(MaxOps='3', RemDeadMeansDead='TRUE', Cases='FreeRemote').replace('PROPERTY Live_Returns', ''), workers=2, expect_error=True,
                                            label='what-if: RemoteWorker.terminate answers True once the remote child is known to be gone (must be rejected)')
     jobs['whatif_reportmeansdead'] = dict(cfg=_mc_cfg(MaxOps='2', ReportMeansDead='TRUE', Cases='FreeProcess'), workers=2, expect_error=True,
@@ -538,6 +549,8 @@ def run(prop, tier, replay=None):
             if r.error or not r.completed:
                 raise MachineryError('%s: Lifecycle.tla fails: %s\n%s\n%s' % (nm, r.error, '\n'.join(r.trace[:80]), r.stdout[-1500:]))
             ev.add_tlc(j['label'], r, role='model')
+    if wit['whatif_stalealive'] != 'invariant:Inv_Truthful' or wit['whatif_hiddendeadline'] != 'invariant:Inv_Truthful':
+        raise MachineryError('what-if variants are rejected for unexpected reasons: %r' % wit)
     if wit['whatif_cachedeadonfalse'] != 'invariant:Inv_Truthful' or wit['whatif_rebuildraises'] != 'invariant:Inv_Returns':
         raise MachineryError('what-if variants are rejected for unexpected reasons: %r' % wit)
     if wit['whatif_remdeadmeansdead'] not in ('invariant:Inv_Stable', 'invariant:Inv_Truthful'):
